@@ -195,12 +195,12 @@ class LangServer:
         self.root_path = path_from_uri(
             params.get("rootUri") or params.get("rootPath") or ""
         )
-        # The root is the default source directory, `source_dirs` given on the
-        # command line take its place just like the ones in the configuration file
-        if not self.source_dirs:
-            self.source_dirs.add(self.root_path)
-
         self._load_config_file()
+        # The root is the default source directory, `source_dirs` given on the
+        # command line or in the configuration file take its place
+        self.default_source_dirs: bool = not self.source_dirs
+        if self.default_source_dirs:
+            self.source_dirs.add(self.root_path)
         update_recursion_limit(self.recursion_limit)
         self._resolve_globs_in_paths()
         self._config_logger(request)
@@ -1767,6 +1767,8 @@ class LangServer:
         in the configuration file or no configuration file is present
         """
         # Recursively add sub-directories that only match Fortran extensions
+        if not self.default_source_dirs:
+            return None
         if len(self.source_dirs) != 1:
             return None
         if self.root_path not in self.source_dirs:
